@@ -163,6 +163,12 @@ struct Dispatcher::Data {
             if (queue.isEmpty()) {
                 break;
             }
+            if (queue.isLocked()) {
+                // a worker is running a job of this serial queue: its jobs never run concurrently, so do not help now
+                lock.unlock();
+                std::this_thread::yield();
+                continue;
+            }
             auto job = std::move(queue.front());
 
             queue.pop();
